@@ -9,7 +9,7 @@ use std::panic::Location;
 use std::sync::{Arc, Mutex as StdMutex};
 use std::time::Duration;
 
-pub const STACK_SIZE: usize = 1 << 20;
+pub const STACK_SIZE: usize = 1 << 21;
 
 pub struct JoinHandle<T> {
     task: usize,
